@@ -473,11 +473,12 @@ def _dq_append(ex, st, base, args, kwargs, k, where):
     items = ex.seq_items(st, base)
     ml = ex.deque_maxlen(st, base)
     n = seq_len(items)
-    full = And(Ge(n, ml))
+    # maxlen < 0 stands for "no maxlen" (an unbounded deque)
+    full = And(Ge(ml, I(0)), Ge(n, ml))
     new = Ite(full, seq_concat(seq_extract(items, I(1), Sub(n, I(1))), seq_unit(v.t)),
               seq_concat(items, seq_unit(v.t)))
     # maxlen == 0 keeps the deque empty
-    new = Ite(Le(ml, I(0)), seq_empty(items.sort), new)
+    new = Ite(Eq(ml, I(0)), seq_empty(items.sort), new)
     return k(ex.set_seq_items(st, base, new), VNone)
 
 
@@ -945,11 +946,12 @@ def _str_slice(ex, st, s, lo, hi):
 @ext("collections.deque")
 def _deque_new(ex, st, args, kwargs, k, where):
     ml = kwargs.get("maxlen")
-    if args or ml is None:
+    if args:
         raise Unsupported(f"deque() form at {where}")
     hint = ex.kind_hints.get((ex.cur_func_name, "deque"))
     ek = parse_kind(hint).elem if hint else K_INT
-    s2, d = ex.new_deque(st, ek, ex.num(ex.unwrap_strict(ml)))
+    mlt = I(-1) if (ml is None or ml is VNone) else ex.num(ex.unwrap_strict(ml))     # -1: unbounded
+    s2, d = ex.new_deque(st, ek, mlt)
     return k(s2, d)
 
 
